@@ -16,7 +16,7 @@ TRUSTED = [
     'C05_translator / C05_sqlkey_sound; the search attacks it (same query text re-used with different values and types, warm vs cold)',
     'hand-written model Model/C05Memo.v of Query._get_translator (lookup by query key, comparison of pinned values, delete + retranslate), of the sql cache key of '
     'Query._construct_sql_and_arguments, and of SessionCache.query_results with its invalidation points (flush, commit, bulk delete; Query._actual_fetch flushes '
-    'before its lookup, Query._aggregate does not); tied on every run: the model, fed with the translation / execution results of the cold-cache run, must reproduce '
+    'before its lookup, Query._aggregate does so as well since repo commit 2af0689 - read from the source on every run, Tie A); tied on every run: the model, fed with the translation / execution results of the cold-cache run, must reproduce '
     'the hit / miss / replaced events observed on db._translator_cache and db._constructed_sql_cache (instrumented dict subclasses) and every answer of the warm run',
     'the warm run and the cold run (every cache cleared before each step: string2ast_cache, extractors_cache, ast_cache, adapted_sql_cache, _translator_cache, '
     '_constructed_sql_cache, _insert_cache, the per-entity SQL caches, query_results) happen on two fresh in-memory SQLite databases with the same initial rows',
@@ -247,8 +247,8 @@ def replay(ctx, data):
 LEVEL_TEXT = ('Machine-checked proof (Coq 8.16.1, induction over request histories of any length) that the caches on the path of a declarative query are transparent: a memo '
               'table whose key determines the computed value (string2ast / extractors / decompiler / SQL caches), the translator cache with its comparison of pinned '
               'parameter values (under the read-set hypothesis about the translator), soundness of the SQL cache key as coded, and the per-session result cache with its '
-              'invalidation points - on the explicit complement of two recorded holes refuted by witnesses (raw SQL writes do not clear query_results; Query._aggregate '
-              'reads query_results before the session is flushed). The model reproduces, on every run, the cache events and answers observed on real Pony / SQLite; a '
+              'invalidation points - on the explicit complement of one recorded hole refuted by a witness (raw SQL writes do not clear query_results; the second hole found '
+              'with this model, Query._aggregate reading query_results before the session is flushed, was repaired in repo commit 2af0689 and is listed as fixed). The model reproduces, on every run, the cache events and answers observed on real Pony / SQLite; a '
               'warm-vs-cold differential search over random histories looks for any other divergence.')
 LEVEL_NOTE = ('Partial: the read-set hypothesis quantifies over the whole translator and is validated (differentially), not proved; adapt_sql\'s cache is C30; thread '
               'interleavings are C22; lambdas / generator objects go through the decompiler cache, covered by the generic theorem only.')
